@@ -166,7 +166,7 @@ fn check(rep: &Report, ck: &str, c: &Case) -> CheckResult {
     if c.msgs.items.iter().any(|m| m.len >= 4096) {
         rep.class("has-long-message");
     }
-    if c.msgs.items.iter().enumerate().any(|(i, m)| m.class == 4 && i > 0) {
+    if c.msgs.items.iter().enumerate().any(|(i, m)| (m.class == 4 || m.class == 5) && i > 0) {
         rep.class("has-duplicate-message");
     }
     let fixture_envelope = c.key.fixture && (l == 1 || l == 10) && (hl == 0 || hl == 16);
